@@ -761,6 +761,9 @@ impl SenderInner<SenderLink<Target>> {
                             .await
                             .map_err(LinkStateError::from)?;
                         let result = self.link.on_incoming_detach(detach);
+                        if closed {
+                            self.link.abandon_delivery_waiters();
+                        }
                         return Err(match (result, closed) {
                             (Ok(_), true) => LinkStateError::RemoteClosed,
                             (Ok(_), false) => LinkStateError::RemoteDetached,
